@@ -890,6 +890,11 @@ class Part(object):
             else:
                 # times[i] == t, quarters[i] == quarter
                 pass
+        elif i < len(times) and times[i] == t and quarters[i] != quarter:
+            # a different value at t is replaced also when the new value
+            # equals that of the preceding segment
+            quarters[i] = quarter
+            changed = True
 
         if not changed:
             return
